@@ -116,6 +116,7 @@ Record sys := mkSys {
   s_cli : bool;             (* the TcpClient object exists *)
   s_cliconn : option nat;   (* TcpClient::connection_ *)
   s_calls : list call;
+  s_dying : bool;           (* the base thread is inside the body of ~TcpServer, between two iterations of its loop over connections_ *)
   s_stop : nat              (* ~TcpServer destroys threadPool_: ~EventLoopThread of io loop 1, 2, ... in turn does
                                loop_->quit(); thread_.join().  0 = the pool is alive (or there are no io loops);
                                j >= 1: io loops 1..j-1 have left loop() and their EventLoop is destroyed, io loop j has
@@ -123,7 +124,7 @@ Record sys := mkSys {
 }.
 
 Definition init_sys (nio : nat) (readd : bool) : sys :=
-  mkSys nio readd [] (repeat (mkLq [] [] [] false) (S nio)) 0 true true None [] 0.
+  mkSys nio readd [] (repeat (mkLq [] [] [] false) (S nio)) 0 true true None [] false 0.
 
 (* observations: callbacks and destructions with the thread that ran them *)
 Inductive obs :=
@@ -152,13 +153,15 @@ Definition holders (s : sys) (c : nat) : nat :=
   end.
 
 Definition set_conns (s : sys) (cs : list lc) : sys :=
-  mkSys (s_nio s) (s_readd s) cs (s_loops s) (s_rr s) (s_srv s) (s_cli s) (s_cliconn s) (s_calls s) (s_stop s).
+  mkSys (s_nio s) (s_readd s) cs (s_loops s) (s_rr s) (s_srv s) (s_cli s) (s_cliconn s) (s_calls s) (s_dying s) (s_stop s).
 Definition set_loops (s : sys) (ls : list lq) : sys :=
-  mkSys (s_nio s) (s_readd s) (s_conns s) ls (s_rr s) (s_srv s) (s_cli s) (s_cliconn s) (s_calls s) (s_stop s).
+  mkSys (s_nio s) (s_readd s) (s_conns s) ls (s_rr s) (s_srv s) (s_cli s) (s_cliconn s) (s_calls s) (s_dying s) (s_stop s).
 Definition set_calls (s : sys) (cl : list call) : sys :=
-  mkSys (s_nio s) (s_readd s) (s_conns s) (s_loops s) (s_rr s) (s_srv s) (s_cli s) (s_cliconn s) cl (s_stop s).
+  mkSys (s_nio s) (s_readd s) (s_conns s) (s_loops s) (s_rr s) (s_srv s) (s_cli s) (s_cliconn s) cl (s_dying s) (s_stop s).
 Definition set_stop (s : sys) (j : nat) : sys :=
-  mkSys (s_nio s) (s_readd s) (s_conns s) (s_loops s) (s_rr s) (s_srv s) (s_cli s) (s_cliconn s) (s_calls s) j.
+  mkSys (s_nio s) (s_readd s) (s_conns s) (s_loops s) (s_rr s) (s_srv s) (s_cli s) (s_cliconn s) (s_calls s) (s_dying s) j.
+Definition set_dying (s : sys) (b : bool) : sys :=
+  mkSys (s_nio s) (s_readd s) (s_conns s) (s_loops s) (s_rr s) (s_srv s) (s_cli s) (s_cliconn s) (s_calls s) b (s_stop s).
 
 (* the pool's tear-down as seen by io loop l (the base loop 0 is not the pool's) *)
 Definition quitting (s : sys) (l : nat) : bool := negb (l =? 0) && (l =? s_stop s).   (* quit_ stored, still in loop() *)
@@ -267,7 +270,7 @@ Definition close_cb (s : sys) (thr c : nat) : M :=
               if negb (c' =? c) then Fault else                      (* assert(connection_ == conn) *)
               let s1 := put s c (set_own k (k_ccb k) false (k_urefs k) (k_delayed k)) in
               ret (enq (mkSys (s_nio s1) (s_readd s1) (s_conns s1) (s_loops s1) (s_rr s1) (s_srv s1) (s_cli s1)
-                              None (s_calls s1) (s_stop s1)) 0 (TDestroy c))
+                              None (s_calls s1) (s_dying s1) (s_stop s1)) 0 (TDestroy c))
           | None => Fault
           end
       | CbDetail => ret (enq s (k_loop k) (TDestroy c))              (* detail::removeConnection *)
@@ -409,7 +412,9 @@ Definition getl (s : sys) (l : nat) : option lq := nth_error (s_loops s) l.
 (* the thread of loop l is in poll() / dispatching events (and the loop still exists) *)
 Definition loop_idle (s : sys) (l : nat) : bool :=
   match getl s l with Some v => q_idle v && negb (gone s l) | None => false end.
-(* H7: no io loop is inside a drain (between the swap of doPendingFunctors and the next `while (!quit_)`) *)
+(* H7: an io loop does not leave loop() while a connectEstablished / connectDestroyed hand-off is still in pendingFunctors_ *)
+Definition no_handoff (t : task) : bool := match t with TEstablish _ | TDestroy _ => false | _ => true end.
+(* (a sufficient condition of the first version, kept for the witnesses) no io loop is inside a drain *)
 Definition io_idle (s : sys) : bool := forallb q_idle (tl (s_loops s)).
 (* H8: a user reference to / a foreign call on a live connection of loop l is outstanding *)
 Fixpoint outlived_from (s : sys) (l : nat) (cs : list lc) (c : nat) : bool :=
@@ -445,38 +450,37 @@ Definition api_stores (a : api) : bool :=
 
 (* TcpServer::newConnection *)
 Definition accept (s : sys) : M :=
-  if negb (s_srv s) then Rejected else
+  if negb (s_srv s) || s_dying s then Rejected else
   let io := if s_nio s =? 0 then 0 else S (s_rr s) in
   let rr := if s_nio s =? 0 then 0 else (if S (s_rr s) <? s_nio s then S (s_rr s) else 0) in
   let c := length (s_conns s) in
   let s1 := mkSys (s_nio s) (s_readd s) (s_conns s ++ [fresh io CbServer]) (s_loops s) rr (s_srv s) (s_cli s)
-                  (s_cliconn s) (s_calls s) (s_stop s) in
+                  (s_cliconn s) (s_calls s) (s_dying s) (s_stop s) in
   if io =? 0 then establish s1 0 c else ret (enq s1 io (TEstablish c)).
 
-(* ~TcpServer: for every entry of connections_, reset it and runInLoop(connectDestroyed) *)
-Fixpoint srv_destroy_from (s : sys) (n c : nat) : M :=
-  match n with
-  | O => ret s
-  | S n' =>
-      match getc s c with
-      | None => ret s
-      | Some k =>
-          match k_ccb k with
-          | CbServer =>
-              if k_mapped k && k_alive k then
-                let s1 := put s c (set_own k (k_ccb k) false (k_urefs k) (k_delayed k)) in
-                bind (if k_loop k =? 0 then connect_destroyed s1 0 c else ret (enq s1 (k_loop k) (TDestroy c)))
-                     (fun s2 => srv_destroy_from s2 n' (S c))
-              else srv_destroy_from s n' (S c)
-          | _ => srv_destroy_from s n' (S c)
-          end
-      end
+(* ~TcpServer is a LOOP over connections_: `TcpConnectionPtr conn(item.second); item.second.reset();
+   conn->getLoop()->runInLoop(bind(connectDestroyed, conn))`.  Each iteration is a step of its own (the wakeup() of one
+   hand-off lets the io thread swap a batch before the next hand-off is queued).  The entry the next iteration visits: the
+   first live connection the map still holds (map order = order of creation for fewer than ten connections) *)
+Definition is_entry (k : lc) : bool := match k_ccb k with CbServer => k_mapped k && k_alive k | _ => false end.
+Fixpoint next_entry (cs : list lc) (c : nat) : option nat :=
+  match cs with
+  | [] => None
+  | k :: r => if is_entry k then Some c else next_entry r (S c)
+  end.
+(* one iteration: the entry is reset, connectDestroyed runs inline (base loop) or is queued on the io loop *)
+Definition srv_hand (s : sys) (c : nat) : M :=
+  match getc s c with
+  | None => Fault
+  | Some k =>
+      let s1 := put s c (set_own k (k_ccb k) false (k_urefs k) (k_delayed k)) in
+      if k_loop k =? 0 then connect_destroyed s1 0 c else ret (enq s1 (k_loop k) (TDestroy c))
   end.
 
 Definition set_srv (s : sys) (b : bool) : sys :=
-  mkSys (s_nio s) (s_readd s) (s_conns s) (s_loops s) (s_rr s) b (s_cli s) (s_cliconn s) (s_calls s) (s_stop s).
+  mkSys (s_nio s) (s_readd s) (s_conns s) (s_loops s) (s_rr s) b (s_cli s) (s_cliconn s) (s_calls s) (s_dying s) (s_stop s).
 Definition set_cli (s : sys) (b : bool) (cc : option nat) : sys :=
-  mkSys (s_nio s) (s_readd s) (s_conns s) (s_loops s) (s_rr s) (s_srv s) b cc (s_calls s) (s_stop s).
+  mkSys (s_nio s) (s_readd s) (s_conns s) (s_loops s) (s_rr s) (s_srv s) b cc (s_calls s) (s_dying s) (s_stop s).
 
 Definition cli_connect (s : sys) : M :=
   if negb (s_cli s) then Rejected else
@@ -485,7 +489,7 @@ Definition cli_connect (s : sys) : M :=
   | None =>
       let c := length (s_conns s) in
       let s1 := mkSys (s_nio s) (s_readd s) (s_conns s ++ [fresh 0 CbClient]) (s_loops s) (s_rr s) (s_srv s) (s_cli s)
-                      (Some c) (s_calls s) (s_stop s) in
+                      (Some c) (s_calls s) (s_dying s) (s_stop s) in
       establish s1 0 c
   end.
 
@@ -549,7 +553,8 @@ Definition ev_step (strict : bool) (s : sys) (c : nat) (e : kev) : M :=
   | Some k =>
       if negb (k_alive k && k_added k && k_inset k && loop_idle s (k_loop k)) then Rejected else
       let thr := k_loop k in
-      let orphan := match k_ccb k with CbServer => negb (s_srv s) | CbClient => negb (s_cli s) | CbDetail => false end in
+      (* the owner is gone, or - a server connection - ~TcpServer has already handed its connectDestroyed over *)
+      let orphan := match k_ccb k with CbServer => negb (s_srv s) || negb (k_mapped k) | CbClient => negb (s_cli s) | CbDetail => false end in
       match e with
       | KData => if k_rd k then emit s [OMsg thr c] else Rejected
       | KEof => if k_rd k then (if strict && orphan then Rejected else handle_close s thr c) else Rejected
@@ -581,11 +586,13 @@ Definition step (strict : bool) (s : sys) (o : op) : M :=
   | Accept => finish (accept s) 0
   | SrvDestroy =>
       if negb (s_srv s) then Rejected else
-      if strict && (has_task is_remove s || has_task is_force s) then Rejected else            (* H2 *)
-      if strict && negb (io_idle s) then Rejected else                                         (* H7 *)
-      (* the body, then the members die: threadPool_ -> ~EventLoopThread of io loop 1: loop_->quit(); thread_.join() *)
-      finish (bind (srv_destroy_from s (length (s_conns s)) 0)
-                   (fun s1 => ret (set_stop (set_srv s1 false) (if s_nio s =? 0 then 0 else 1)))) 0
+      if strict && (has_task is_remove s || has_task is_force s) then Rejected else            (* H2, at every step of ~TcpServer *)
+      match next_entry (s_conns s) 0 with
+      | Some c => finish (srv_hand (set_dying s true) c) 0                                     (* one iteration of the body *)
+      | None =>
+          (* the body is over, the members die: threadPool_ -> ~EventLoopThread of io loop 1: loop_->quit(); thread_.join() *)
+          finish (ret (set_stop (set_dying (set_srv s false) false) (if s_nio s =? 0 then 0 else 1))) 0
+      end
   | CliConnect => finish (cli_connect s) 0
   | CliDestroy => finish (cli_destroy strict s) 0
   | Swap l =>
@@ -614,6 +621,7 @@ Definition step (strict : bool) (s : sys) (o : op) : M :=
                 (* `while (!quit_)` fails: loop() returns, the EventLoop on the io thread's stack is destroyed and with it the
                    functors of the batch AND whatever is still in pendingFunctors_ - there is no drain after the while loop
                    (their bound shared_ptrs die on this thread); join() returns and the next io loop is told to quit *)
+                if strict && negb (forallb no_handoff (q_pend v)) then Rejected else            (* H7 *)
                 if strict && outlived s l then Rejected else                                   (* H8 *)
                 finish (ret (set_stop (set_loops s (upd (s_loops s) l (mkLq [] [] [] false))) (S l))) l
               else finish (ret (set_loops s (upd (s_loops s) l (mkLq (q_pend v) [] [] false)))) l
